@@ -26,7 +26,7 @@ SPEC = Spec(
          "library directly at levels the client cannot select, header preset -> client skip branch), garbage (hostile/corrupted/"
          "truncated streams and odd header values). Bodies: zeros, text pattern, pseudo-random incompressible, explicit bytes; "
          "corpus first (3 reproduced defects, 1 MiB zip-bomb per algorithm, 64 KiB+-1 per algorithm, thorough: 1 MiB+-1 and all "
-         "decoder-list subsets x client types). 1 case in 8 (and 3 corpus cases) builds SEVERAL servers in one process: A with WithDecoder (a new name and/or an override of a built-in) and a restricted list, then B default/random, sometimes C restricted, probing that A still rejects what it did not list and that later servers are unaffected by the registration of A; half of them also register a pass-through decoder (fn returns nil,nil) under a non-empty name with bodies at limit-1/limit/limit+1/far beyond. 1 case in 24 (and 7 corpus cases, every algorithm) is a CONCURRENCY case (monitor): handlers that Close r.Body 0-2 times, then 4-16 requests with distinct self-describing bodies (some multi-block) held at a barrier inside the handler so that they overlap for certain; oracle: every handler read exactly its own client bytes; thorough repeats 300 such cases under -race; half of the concurrency cases force the overlap inside the CLIENT compress step too (body readers block at a barrier at their first Read, after a request whose body source fails half-way; client panics recovered and reported). UNKNOWN LENGTH: 1 request in 3 (and 8 corpus cases: identity and every algorithm x body limit-1/limit/limit+1/50x) has a body source without known length (Transfer-Encoding: chunked, ContentLength -1). NAMES: the oracle judges accept/reject by the algorithm the client is CONFIGURED with and requires the Content-Encoding on the wire to be that very name; corpus: every client type against a list with exactly that name and against a list with every name but it, the deflate/zlib pair in both directions. REPLAY: 1 client request in 4 (+7 corpus cases, every algorithm) is a replay history: replayable request (Idempotency-Key / X-Idempotency-Key / GET with body, caller body with GetBody) whose first attempt on the reused keep-alive connection is killed unanswered by the server, so net/http rewinds with GetBody and resends; judged by the round-trip clause on what the handler finally reads, plus a direct check per stage that GetBody of the request handed to the inner transport yields its Body bytes. STREAMING: 1 request in 3 is consumed by the handler in chunks of 1..4096 bytes / only a prefix (k around the body length or the limit) / not at all, then Closed 0-2 times by the handler, and is followed by a full request on the same keep-alive connection (MaxConnsPerHost=1; reuse counted). POOL histories (6 corpus cases x 12 steps + 1 random case in 12): sequential histories over the REAL process-wide writer pools in-package - newCompressor (pointer identity for equal keys), compressor.compress and compressRoundTripper.RoundTrip over a recording inner transport; keys = every type x two levels; bodies failing at offset 0 / half / last byte, failing Close, Body == nil, http.NoBody, empty, 64 KiB+-1, 100 kB; every output compared (length + FNV-1a; lz4 modulo decoding) with a FRESH writer built by the key's own constructor and decoded by the library. non-trivial = some request was encoded, or rejected/panicked, or had a body within "
+         "decoder-list subsets x client types). 1 case in 8 (and 3 corpus cases) builds SEVERAL servers in one process: A with WithDecoder (a new name and/or an override of a built-in) and a restricted list, then B default/random, sometimes C restricted, probing that A still rejects what it did not list and that later servers are unaffected by the registration of A; half of them also register a pass-through decoder (fn returns nil,nil) under a non-empty name with bodies at limit-1/limit/limit+1/far beyond. 1 case in 24 (and 7 corpus cases, every algorithm) is a CONCURRENCY case (monitor): handlers that Close r.Body 0-2 times, then 4-16 requests with distinct self-describing bodies (some multi-block) held at a barrier inside the handler so that they overlap for certain; oracle: every handler read exactly its own client bytes; thorough repeats 300 such cases under -race; half of the concurrency cases force the overlap inside the CLIENT compress step too (body readers block at a barrier at their first Read, after a request whose body source fails half-way; client panics recovered and reported). UNKNOWN LENGTH: 1 request in 3 (and 8 corpus cases: identity and every algorithm x body limit-1/limit/limit+1/50x) has a body source without known length (Transfer-Encoding: chunked, ContentLength -1). NAMES: the oracle judges accept/reject by the algorithm the client is CONFIGURED with and requires the Content-Encoding on the wire to be that very name; corpus: every client type against a list with exactly that name and against a list with every name but it, the deflate/zlib pair in both directions. REPLAY: 1 client request in 4 (+7 corpus cases, every algorithm) is a replay history: replayable request (Idempotency-Key / X-Idempotency-Key / GET with body, caller body with GetBody) whose first attempt on the reused keep-alive connection is killed unanswered by the server, so net/http rewinds with GetBody and resends; judged by the round-trip clause on what the handler finally reads, plus a direct check per stage that GetBody of the request handed to the inner transport yields its Body bytes. STREAMING: 1 request in 3 is consumed by the handler in chunks of 1..4096 bytes / only a prefix (k around the body length or the limit) / not at all, then Closed 0-2 times by the handler, and is followed by a full request on the same keep-alive connection (MaxConnsPerHost=1; reuse counted). GENERATIONS: every stage builds the server TWICE from the same ServerConfig value and serves with the second; a third generation takes over before the last request; ToClient is called twice from one ClientConfig and the second client is used; after every ToServer / ToClient a direct oracle checks that the configuration is still what the operator wrote (only the documented defaulting nil list -> default list, size <= 0 -> default, level 0 -> default is allowed); 9 corpus cases with unknown names in every position of the list, with and without \"\". POOL histories (6 corpus cases x 12 steps + 1 random case in 12): sequential histories over the REAL process-wide writer pools in-package - newCompressor (pointer identity for equal keys), compressor.compress and compressRoundTripper.RoundTrip over a recording inner transport; keys = every type x two levels; bodies failing at offset 0 / half / last byte, failing Close, Body == nil, http.NoBody, empty, 64 KiB+-1, 100 kB; every output compared (length + FNV-1a; lz4 modulo decoding) with a FRESH writer built by the key's own constructor and decoded by the library. non-trivial = some request was encoded, or rejected/panicked, or had a body within "
          "+-1 of the limit; distinct = distinct op sequences (sha1 of the op lines).",
     trusted_base=[
         "Lean 4.33.0 kernel; axioms per theorem listed under axioms_per_theorem (subset of propext, Classical.choice, Quot.sound)",
